@@ -34,6 +34,27 @@ def op_options_filter(job):
         return {'raised': type(e).__name__ + ': ' + str(e)}
 
 
+def op_get_options(job):
+    """get_options(argv, defaults) as the runner calls it; the projection of
+    the result onto the vocabulary of Options.tla is a lookup (None -> empty,
+    sys.maxsize -> the model's MaxLevel)"""
+    from zope.testrunner.options import get_options
+    try:
+        o = get_options(list(job['argv']), list(job['defaults']))
+    except BaseException as e:  # noqa
+        return {'raised': type(e).__name__ + ': ' + str(e)}
+    if getattr(o, 'fail', False):
+        return {'raised': 'options.fail'}
+    lay = o.layer
+    return {'obs': {
+        'test': list(o.test or []), 'module': list(o.module or []),
+        'layer': list(lay) if lay else [],
+        'atLevel': 1000000 if o.at_level == sys.maxsize else o.at_level,
+        'onlyLevel': -1000 if o.only_level is None else o.only_level,
+        'unit': bool(o.unit), 'nonUnit': bool(o.non_unit), 'keep': bool(o.keepbytecode),
+        'verbose': int(o.verbose or 0), 'repeat': o.repeat, 'procs': o.processes}}
+
+
 class _Inst:
     def __init__(self, name, bases, module):
         self.__name__ = name
